@@ -385,6 +385,7 @@ def _occ_from_loop(allp, b, unk):
 CL = r"closure<\{closure#\d+\}>"
 ITER = r"(?:core::slice::<impl \[T\]>::iter|smallvec::SmallVec::<A>::iter|std::iter::IntoIterator::into_iter)\(OCC\)"
 COUNT = r"std::iter::Iterator::count\(std::iter::Iterator::filter\((?:std::iter::Iterator::enumerate\()?%s\)?, %s\)\)" % (ITER, CL)
+FINDMUT = r"std::iter::(?:DoubleEndedIterator::rfind|Iterator::find)\((?:core::slice::<impl \[T\]>::iter_mut|smallvec::SmallVec::<A>::iter_mut)\(OCC\), %s\)" % CL
 POS = r"std::iter::(?:Iterator::position|Iterator::rposition|DoubleEndedIterator::rposition)\(%s, %s\)" % (ITER, CL)
 
 
@@ -481,8 +482,17 @@ def run(ctx):
                 pos_closures.extend(_closures(t))
                 if l in ("None", "otherwise") and l != "Some":
                     none_found = True       # no entry satisfies the predicate: the count is 0
+            elif re.match(r"^discr\(%s\)$" % FINDMUT, s):
+                # `if let Some(e) = occ.iter_mut().rfind(pred) { *e = MAX }`: a search for an entry to strike out
+                pos_closures.extend(_closures(t))
+                if l != "Some":
+                    none_found = True
             else:
                 chk.unrecognised("R15.1", "cond", "take/clone decision depends on an unrecognised condition: %s" % s[:140], loc(st.span))
+        if clone and st.cloned and none_found and rel in ((">", 1), (">=", 2)):
+            # more than one entry satisfies the predicate, and a search with the same predicate (checked below: both are
+            # `entry == idx`) finds none: not a path of the program
+            continue
         if clone and st.cloned:
             n_clone += 1
             # count > 1  (equivalently >= 2)
@@ -497,6 +507,8 @@ def run(ctx):
                     ok_mark, mark_via = True, "scan"
                 elif re.match(r"^std::ops::IndexMut::index_mut\(OCC, \.0\(as:Some\(%s\)\)\)$" % POS, tgt):
                     ok_mark, mark_via = True, "position"
+                elif re.match(r"^\.0\(as:Some\(%s\)\)$" % FINDMUT, tgt):
+                    ok_mark, mark_via = True, "position"     # the entry the search handed out (by mutable reference)
             if ok_mark:
                 chk.ok("R15.2", "clone path marks the occurrence found by the scan", st.marks[0][0][:80], loc(st.span))
             else:
